@@ -59,8 +59,10 @@ def rand_triangle_cells(rng, n_slices=None, small=False, for_plot=False):
     daily = (not for_plot) and rng.random() < 0.12
     res = rng.choice([1, 3, 6, 12])
     fields = ["paid_loss", "reported_loss", "earned_premium"]
-    if rng.random() < 0.3:
+    big_level = None
+    if rng.random() < 0.4:
         fields.append("reported_claims")
+        big_level = rng.choice([None, "int", "float"]) if not for_plot else None
     if rng.random() < 0.2:
         fields.append("incurred_loss")
     same_layout = rng.random() < 0.3
@@ -95,6 +97,14 @@ def rand_triangle_cells(rng, n_slices=None, small=False, for_plot=False):
                     else:
                         vk = "int" if int_valued else "float"
                     vals[f] = gen.rand_value(rng, vk, n_samples, lo=1, hi=2048)
+                    if f == "reported_claims" and sample and big_level:
+                        # a LARGE LEVEL with a small spread (pass-through field only, so every input of the
+                        # statistics stays exact): one-pass variance formulas cancel catastrophically here,
+                        # int64 squares overflow above ~3.04e9
+                        if big_level == "int":
+                            vals[f] = np.array([3_200_000_000 + rng.randrange(0, 64) for _ in range(n_samples)], dtype=np.int64)
+                        else:
+                            vals[f] = np.array([float(2 ** 32) + gen.dyadic(rng, 0, 64) for _ in range(n_samples)])
                 if flat_next[0] is not None and not sample and not for_plot:
                     vals, flat_next[0] = {k: v for k, v in flat_next[0].items()}, None
                 elif not for_plot:
@@ -393,11 +403,52 @@ def count_facets(spec):
 _PLOT_TRIS = []      # triangles of the current run; inherited by the forked workers
 
 
+def _records_of(tri):
+    """wire records of build_plot_data for the triangle and for each of its slices (the plot methods
+    call build_plot_data per slice; the function is cached on the triangle's value)"""
+    stat_fields = [f.name for f in dataclasses.fields(P.FieldSummary) if f.name not in STAT_FIELDS_SKIP]
+    out = []
+    parts = [tri] + ([Triangle(sl.cells) for sl in tri.slices.values()] if len(tri.slices) > 1 else [])
+    for part in parts:
+        with warnings.catch_warnings():
+            warnings.simplefilter("ignore")
+            recs = P.build_plot_data(Triangle(list(part.cells)))      # an EQUAL triangle, a new object
+        out.append((part.cells, [rec_wire(r, stat_fields) for r in recs]))
+    return out
+
+
+def _sequence_problem(before, after):
+    """SEQUENCE clause: after a plot method has run, build_plot_data on an equal triangle must still
+    return one record per cell in cell order, the same records as before the plot"""
+    for (cells, r0), (_, r1) in zip(before, after):
+        bad = py_spec(cells, r1)
+        if bad:
+            return f"after the plot call build_plot_data violates: {bad[0][0]} {bad[0][1]}"
+        if r0 != r1:
+            return "build_plot_data returns different records after the plot call than before it"
+    return None
+
+
 def _plot_one(task):
     """build one chart in a worker process and validate it; returns a plain record"""
     ti, name = task
     tri = _PLOT_TRIS[ti]
-    rec = {"ti": ti, "name": name, "status": "ok", "detail": None, "facets": None}
+    rec = {"ti": ti, "name": name, "status": "ok", "detail": None, "facets": None, "sequence": None}
+    try:
+        before = _records_of(tri)
+    except Exception as e:  # noqa: BLE001
+        before = None
+        rec["sequence"] = f"build_plot_data raised before the plot call: {type(e).__name__}"
+    rec = _plot_core(tri, name, rec)
+    if before is not None and rec["status"] != "known-broken":
+        try:
+            rec["sequence"] = _sequence_problem(before, _records_of(tri))
+        except Exception as e:  # noqa: BLE001
+            rec["sequence"] = f"build_plot_data raised after the plot call: {type(e).__name__}: {str(e)[:200]}"
+    return rec
+
+
+def _plot_core(tri, name, rec):
     try:
         with warnings.catch_warnings():
             warnings.simplefilter("ignore")
@@ -463,6 +514,8 @@ def plot_checks(ctx, rng):
         if st == "known-broken":
             excluded[name] = rec["detail"]
             continue
+        if rec.get("sequence"):
+            ctx.fail(f"sequence: {name} then build_plot_data — {rec['sequence']}", case)
         if st == "raised":
             ctx.fail(f"{name} raised {rec['detail'].split(':')[0]}", case, rec["detail"])
             continue
@@ -517,6 +570,21 @@ def correspondence(ctx):
             continue
         for clause, detail in py_spec(tri.cells, impl)[:3]:
             ctx.fail(clause, case, {"where": detail, "impl": impl})
+        if i % 4 == 0:
+            # SEQUENCE: the same call again, on an equal triangle built anew (cache hit) and after a
+            # priming call with other options, must describe the same cells in the same order
+            with warnings.catch_warnings():
+                warnings.simplefilter("ignore")
+                call(P.build_plot_data, tri, None, True, True)                      # flat=True priming call
+                st2, recs2 = call(P.build_plot_data, Triangle(list(tri.cells)))
+            ctx.count("data/sequence-second-call")
+            try:
+                impl2 = [rec_wire(r, stat_fields) for r in recs2] if st2 == "ok" else None
+            except NonFinite:
+                impl2 = None
+            if impl2 != impl:
+                ctx.fail("sequence: a second build_plot_data call on an equal triangle returns different records",
+                         case, {"first": impl, "second": impl2})
         reqs.append({"cells": wire, "impl": impl, "tol": common.w_rat(TOL)})
         cases.append((case, impl))
     outs = drv.run(reqs)
